@@ -96,6 +96,9 @@ def source_field(it, o, v, depth=0):
 
 def run(chk):
     w = C.world_for(chk)
+    from . import ctors as _ctors
+    _ctors.accessors(chk, w, only=["vaporetto::utils"])
+    _ctors.run(chk, w)
     for rid, txt in (("R14.1", "encode/decode sequences agree"), ("R14.2", "automaton serialize <-> deserialize_unchecked"), ("R14.3", "remainder slice"),
                      ("R14.4", "fixed weight vectors"), ("R07.2", "single bincode configuration (shared with C07)"), ("R14.6", "unsafe witness")):
         chk.rule(rid, txt)
